@@ -46,6 +46,21 @@ def r1(ctx):
         locs = flow.controlling_locs(prog, i)
         fl = i.loc
         key = 'C20.R1:%s:%s:trace-line-format' % (fl[0], f.name)
+        # a directive that is only *formatted* into a local buffer here is emitted where that buffer is handed on:
+        # those hand-offs are what must depend on ctrl.gen_line_dirs
+        if i.op == 'call' and i.callee in ('snprintf', 'sprintf') and i.ops:
+            res_ = ir.Resolver(f)
+            dst = res_.loc(i.ops[0])
+            while dst[0] == 'elem': dst = dst[1]
+            if dst[0] == 'local':
+                def passes(c):
+                    for a in c.ops:
+                        l = res_.loc(a)
+                        while l and l[0] == 'elem': l = l[1]
+                        if l == dst: return True
+                    return False
+                hand = [c for c in f.ins if c.op == 'call' and c is not i and passes(c)]
+                if hand and all(GLD in flow.controlling_locs(prog, c) for c in hand): locs = locs | {GLD}
         if GLD in locs:
             rep.ok('C20.R1', '%s: use of the trace-line hook is control dependent on ctrl.gen_line_dirs' % where(i))
         else:
